@@ -6,6 +6,10 @@ import (
 	"io"
 	"strings"
 
+	"github.com/llir/llvm/ir"
+	"github.com/llir/llvm/ir/constant"
+	"github.com/llir/llvm/ir/types"
+
 	"verif/internal/corpus"
 	"verif/internal/fw"
 )
@@ -96,7 +100,76 @@ func genC19(ctx *fw.Ctx) []fw.Case {
 		s := s
 		cases = append(cases, fw.Case{ID: s.ID, Run: func(r *fw.Rec) { runC19(r, s) }})
 	}
+	cases = append(cases, fw.Case{ID: "api/first-writeto", Run: c19APIFirstWriteTo})
 	return cases
+}
+
+// c19APIFirstWriteTo: modules built or edited through the API whose numbering
+// is not yet what printing will make it (never printed; printed, then edited so
+// that numbers shift) and in which a number is used from outside its function
+// (the address of an unnamed block taken by an earlier function or a global).
+// The first WriteTo must write exactly the text String() returns afterwards,
+// for a non-failing writer and for writers failing at every offset.
+func c19APIFirstWriteTo(r *fw.Rec) {
+	build := func(withGlobal, edited bool) *ir.Module {
+		m := ir.NewModule()
+		user := m.NewFunc("user", types.I8Ptr)
+		later := m.NewFunc("later", types.I32, ir.NewParam("", types.I32))
+		entry := later.NewBlock("")
+		v := entry.NewAdd(later.Params[0], constant.NewInt(types.I32, 1))
+		target := later.NewBlock("")
+		entry.NewBr(target)
+		target.NewRet(v)
+		user.NewBlock("").NewRet(constant.NewBlockAddress(later, target))
+		if withGlobal {
+			m.NewGlobalDef("slot", constant.NewBlockAddress(later, target))
+		}
+		if edited {
+			_ = m.String()
+			entry.Insts = append([]ir.Instruction{ir.NewMul(later.Params[0], later.Params[0])}, entry.Insts...)
+		}
+		return m
+	}
+	for _, withGlobal := range []bool{false, true} {
+		for _, edited := range []bool{false, true} {
+			id := fmt.Sprintf("api/first-writeto/global=%v/printed-then-edited=%v", withGlobal, edited)
+			ref := build(withGlobal, edited)
+			cw := &chunkWriter{}
+			var n int64
+			var werr error
+			if p, msg, _ := fw.Guard(func() { n, werr = ref.WriteTo(cw) }); p {
+				r.Violatef("writeto-panic/"+id, "", "WriteTo panicked: %s", msg)
+				continue
+			}
+			T, _ := printGuard(ref)
+			r.Eval(1)
+			if werr != nil || n != int64(len(cw.got)) || string(cw.got) != T {
+				r.Violate(fw.Violation{Key: "first-writeto-differs-from-string/" + id, What: "the first WriteTo wrote something else than String() returns afterwards: " + firstDiffLines(T, string(cw.got)), Expected: T, Observed: string(cw.got)})
+				continue
+			}
+			bad := false
+			for k := 0; k <= len(T) && !bad; k++ {
+				m := build(withGlobal, edited)
+				w := &faultWriter{limit: k}
+				var n int64
+				var werr error
+				if p, msg, _ := fw.Guard(func() { n, werr = m.WriteTo(w) }); p {
+					r.Violatef("writeto-panic/"+id, "", "WriteTo panicked with a writer failing after %d bytes: %s", k, msg)
+					bad = true
+					break
+				}
+				r.Eval(1)
+				if n != int64(len(w.got)) || len(w.got) != min(k, len(T)) || string(w.got) != T[:len(w.got)] || (k < len(T) && werr != w.firstErr) {
+					r.Violate(fw.Violation{Key: "faulty-writer/first-print/" + id, What: fmt.Sprintf("first WriteTo into a writer failing after %d bytes: n=%d err=%v, %d bytes delivered, prefix of String(): %v", k, n, werr, len(w.got), string(w.got) == T[:min(len(w.got), len(T))]), Expected: T, Observed: string(w.got)})
+					bad = true
+				}
+			}
+			if !bad {
+				r.Nontrivial(id)
+				r.Tally("first_writeto", "api:"+id)
+			}
+		}
+	}
 }
 
 func runC19(r *fw.Rec, s corpus.Source) {
@@ -133,6 +206,26 @@ func runC19(r *fw.Rec, s corpus.Source) {
 		return
 	}
 	r.TallyN("writer_calls_nonfailing", "total", cw.calls)
+	// the first WriteTo of a never-printed module (a second parse of the same
+	// text): what it writes is what String() returns afterwards
+	if m2, perr2, pmsg2 := parseGuard(s.ID, text); pmsg2 == "" && perr2 == nil && m2 != nil {
+		cw2 := &chunkWriter{}
+		var n2 int64
+		var werr2 error
+		if p, msg, _ := fw.Guard(func() { n2, werr2 = m2.WriteTo(cw2) }); p {
+			r.Violatef("writeto-panic/first-print/"+s.ID, text, "the first WriteTo of a never-printed module panicked: %s", msg)
+			return
+		}
+		T2, _ := printGuard(m2)
+		r.Eval(1)
+		if werr2 != nil || n2 != int64(len(cw2.got)) || string(cw2.got) != T2 {
+			r.Violate(fw.Violation{Key: "first-writeto-differs-from-string/" + s.ID, Input: text,
+				What:     fmt.Sprintf("the first WriteTo of a never-printed module wrote %d bytes (n=%d, err=%v) that are not the String() of the module: %s", len(cw2.got), n2, werr2, firstDiffLines(T2, string(cw2.got))),
+				Expected: T2, Observed: string(cw2.got)})
+			return
+		}
+		r.Tally("first_writeto", "equals-string")
+	}
 	// offsets
 	var offs []int
 	if L <= 6000 {
